@@ -8,4 +8,8 @@ def run(tier, seed):
         "output and its ANTI_REORG_DELAY-th confirmation the balance may or may not still be listed (get_claimable_balances docs)",
         "a preimage claim must win only if the preimage was known when the commitment confirmed, more than 12 blocks before the "
         "expiry, and no live claim of the node was ever left out of a block",
+        "reorganisations may unconfirm the commitment and confirmed claims of an honest close (same rules as for C06: depth within "
+        "ANTI_REORG_DELAY, the network keeps or forgets dependent claims, periodic rebroadcast_pending_claims for ten blocks after it "
+        "forgot some, obligations judged from the first block of the new chain on, a reorganisation that unconfirms anything counts "
+        "as unfair mining for the must-win rule); preimages arrive before the close in those schedules",
     ])
